@@ -160,7 +160,8 @@ Definition reply_parse (st : rstate) (data : list N) : option rstate :=
 Inductive err :=
 | ENetwork                (* NetworkError('Connection closed.') *)
 | EProtocol               (* ProtocolError *)
-| EOverlong               (* ValueError from StreamReader.readline: line over the limit *)
+| EOverlong               (* line over the StreamReader limit: ValueError from readline, which the F24 fix
+                             in Connection.readline turns into a ProtocolError; one class here *)
 | EServer (code : N)      (* FTPServerError(.., reply.code) *)
 | EAuth                   (* AuthenticationError *)
 | EEncode                 (* UnicodeEncodeError *)
@@ -782,10 +783,15 @@ Definition event_eqb (a b : event) : bool :=
   | _, _ => false
   end.
 
+(* the visit as the property sees it: the control events in order and the data
+   bytes delivered (not how read(4096) happened to chunk them - by
+   C17_interleaving_independent nothing else depends on it) *)
 Definition check_visit (limit : N) (q : request) (fresh : bool) (cached : option (list N * list N))
-           (ctrl data : conn) (net : list (nat * nat)) (events : list event) (outcome : res (N * list N)) : bool :=
+           (ctrl data : conn) (net : list (nat * nat)) (events : list event) (delivered : list N)
+           (outcome : res (N * list N)) : bool :=
   let '(s', r) := visit limit q fresh cached (mkSess ctrl data [] net) in
-  lists_eqb event_eqb (s_tr s') events
+  lists_eqb event_eqb (control_of (s_tr s')) events
+  && list_eqb (data_of (s_tr s')) delivered
   && match r, outcome with
      | Ok (c1, t1), Ok (c2, t2) => (c1 =? c2) && list_eqb t1 t2
      | Err e1, Err e2 => err_eqb e1 e2
